@@ -353,6 +353,7 @@ func (self *Lexer) makeNumber() Token {
 			self.advance()
 		}
 	} else if self.currentChar != nil && *self.currentChar == 'f' {
+		lastEnd = self.location
 		self.advance()
 		kind = Float // this number is now a float
 	}
